@@ -2,6 +2,7 @@
   C10 — Manifest syntax is read into exactly the declared graph.
 -/
 import N2V.Lemmas.Parse
+import N2V.Lemmas.EvalSpec
 import N2V.Model.Load
 namespace N2V.C10
 open N2V N2V.Scanner N2V.Eval N2V.Parse N2V.Load
@@ -53,5 +54,47 @@ theorem split_literal_same (envs : List Env) (a b : Bytes) :
 theorem empty_literal_neutral (envs : List Env) (pre post : EvalStr) :
     evaluate envs (pre ++ [.lit []] ++ post) = evaluate envs (pre ++ post) := by
   unfold evaluate; cases envs.length <;> simp [evalFuel, List.flatMap_append]
+
+/-! ### `read_eval` at byte level (Lemmas/EvalSpec) -/
+
+/-- **Values are read as written**: for text made of literal runs, `$var` / `${var}` references,
+    the escapes `$ ` `$$` `$:` and `$`-newline continuations followed by any indentation — up to
+    the newline, or the space / `:` / `|` that ends a path on a `build` line — `read_eval`
+    returns exactly the corresponding parts (`textParts`) and stops at the terminator. -/
+theorem values_read_as_written (buf : Array UInt8) (sep : Bool) (segs : List Seg) (last : Bytes) (t : UInt8)
+    (r : Bytes) (hwf : SegsWF sep segs (last ++ t :: r)) (hlast : ∀ c ∈ last, plain sep c) (ht : stops sep t)
+    (hne : textParts segs last ≠ []) (s : Scanner) (g : Depfile.G buf s)
+    (hr : Rest buf s.ofs (segsBytes segs ++ last ++ t :: r)) :
+    ∃ s', readEval sep s = .ok (textParts segs last) s' ∧ Depfile.G buf s' ∧ Rest buf s'.ofs (t :: r) :=
+  readEval_spec buf sep segs last t r hwf hlast ht hne s g hr
+
+/-- **`$var` versus `${var}`** (and which terminator or following text): two texts whose segments
+    agree up to the spelling of their references are read as the same value. -/
+theorem var_spelling_independent (buf buf' : Array UInt8) (sep : Bool) (segs segs' : List Seg) (last : Bytes)
+    (t t' : UInt8) (r r' : Bytes)
+    (hsame : segs.map (fun sg => (sg.1, escPart sg.2)) = segs'.map (fun sg => (sg.1, escPart sg.2)))
+    (hwf : SegsWF sep segs (last ++ t :: r)) (hwf' : SegsWF sep segs' (last ++ t' :: r'))
+    (hlast : ∀ c ∈ last, plain sep c) (ht : stops sep t) (ht' : stops sep t')
+    (hne : textParts segs last ≠ []) (s s' : Scanner) (g : Depfile.G buf s) (g' : Depfile.G buf' s')
+    (hr : Rest buf s.ofs (segsBytes segs ++ last ++ t :: r))
+    (hr' : Rest buf' s'.ofs (segsBytes segs' ++ last ++ t' :: r')) :
+    ∃ v s1 s1', readEval sep s = .ok v s1 ∧ readEval sep s' = .ok v s1' :=
+  readEval_brace_independent buf buf' sep segs segs' last t t' r r' hsame hwf hwf' hlast ht ht' hne s s' g g' hr hr'
+
+/-- The two spellings of a reference denote the same part. -/
+theorem brace_spelling_same_part (n : Bytes) : escPart (.simple n) = escPart (.braced n) := rfl
+
+/-- **Placement of line continuations**: a `$`-newline (with any indentation after it) inside a
+    literal leaves `lit a, lit [], lit b`, which evaluates like the unbroken literal. -/
+theorem continuation_placement (envs : List Env) (pre post : EvalStr) (a b : Bytes) (k : Nat) :
+    evaluate envs (pre ++ [.lit a, escPart (.cont k), .lit b] ++ post) = evaluate envs (pre ++ [.lit (a ++ b)] ++ post) := by
+  unfold evaluate escPart
+  cases envs.length <;> simp [evalFuel, List.flatMap_append]
+
+/-- Non-vacuity: `-o $out ${in}$ x` + newline, as segments. -/
+example : segsBytes [([45, 111, 32], .simple [111, 117, 116]), ([32], .braced [105, 110]), ([], .ch 32)] ++ [120] ++ [10]
+    = [45, 111, 32, 36, 111, 117, 116, 32, 36, 123, 105, 110, 125, 36, 32, 120, 10] := by decide
+example : textParts [([45, 111, 32], .simple [111, 117, 116]), ([32], .braced [105, 110]), ([], .ch 32)] [120]
+    = [.lit [45, 111, 32], .var [111, 117, 116], .lit [32], .var [105, 110], .lit [32], .lit [120]] := by decide
 
 end N2V.C10
